@@ -140,6 +140,14 @@ func (pConn *PFCPConn) handleAssociationSetupRequest(msg message.Message) (messa
 		return nil, errUnmarshal(errMsgUnexpectedType)
 	}
 
+	if asreq.NodeID == nil {
+		return nil, errUnmarshal(ErrNotFound("Node ID IE"))
+	}
+
+	if asreq.RecoveryTimeStamp == nil {
+		return nil, errUnmarshal(ErrNotFound("Recovery Time Stamp IE"))
+	}
+
 	nodeID, err := asreq.NodeID.NodeID()
 	if err != nil {
 		return nil, errUnmarshal(err)
